@@ -610,6 +610,82 @@ func multiRuneCase(rd *rand.Rand, id int) *conCase {
 	return c
 }
 
+// notdefChunkCase: n notdef ranges and n one-code notdef entries (written as
+// notdefrange and notdefchar sections), a few mapped codes among them.
+func notdefChunkCase(n, id int) *conCase {
+	c := &conCase{Kind: "cid", CSR: spaces["2byte"], Origin: fmt.Sprintf("chunks:notdef/ranges=%d/chars=%d", n, n), NotdefSingles: true}
+	c.Opt = options{Version: versionNames[(id+3)%len(versionNames)], Pretty: id%2 == 1}
+	lay := layer{Entries: []entry{}, Notdef: []notdef{}}
+	for i := 0; i < n; i++ {
+		row, col := 0x30+(8*i)/256, (8*i)%256
+		lay.Notdef = append(lay.Notdef, notdef{Lo: []int{row, col}, Hi: []int{row, col + 3}, V: 1 + i%5})
+		lay.Notdef = append(lay.Notdef, notdef{Lo: []int{0x90 + (2*i)/256, (2 * i) % 256}, Hi: []int{0x90 + (2*i)/256, (2 * i) % 256}, V: 6 + i%3})
+		if i%10 == 0 {
+			lay.Entries = append(lay.Entries, entry{C: []int{row, col + 1}, V: cidVal(1000 + i)})
+		}
+		if i%7 == 0 || i >= n-2 {
+			c.Probes = append(c.Probes, []int{row, col}, []int{row, col + 1}, []int{row, col + 3}, []int{row, col + 4},
+				[]int{0x90 + (2*i)/256, (2 * i) % 256}, []int{0x90 + (2*i)/256, (2*i)%256 + 1})
+		}
+	}
+	c.Layers = []layer{lay}
+	return c
+}
+
+// crossLengthCase: mixed-length code spaces whose longer codes start with 0x00 bytes
+// (1+2, 1+3, 2+4 bytes); runs of consecutive last bytes and consecutive values that
+// cross from one code length to the other, in both directions.  Codes of different
+// length never belong to one range.
+func crossLengthCase(id int) *conCase {
+	kind := []string{"cid", "tu"}[id%2]
+	var short, long rng
+	switch id / 2 {
+	case 0:
+		short, long = rng{[]int{0x20}, []int{0x7f}}, rng{[]int{0, 0}, []int{0, 0xff}}
+	case 1:
+		short, long = rng{[]int{0x20}, []int{0x7f}}, rng{[]int{0, 0, 0}, []int{0, 0, 0xff}}
+	default:
+		short, long = rng{[]int{0, 0x20}, []int{0, 0x7f}}, rng{[]int{0, 0, 0, 0}, []int{0, 0, 0, 0xff}}
+	}
+	c := &conCase{Kind: kind, CSR: []rng{short, long}, Origin: fmt.Sprintf("crosslength:%s/%d+%d", kind, len(short.Lo), len(long.Lo))}
+	c.Opt = options{Version: versionNames[id%len(versionNames)], Pretty: id%2 == 0}
+	code := func(r rng, last int) []int {
+		out := append([]int{}, r.Lo...)
+		out[len(out)-1] = last
+		return out
+	}
+	lay := layer{Notdef: []notdef{}}
+	v := 100
+	// last bytes 0x1e..0x7f+2: below 0x20 only the long codes exist; from 0x20 on the run
+	// alternates between the lengths every one, two or three codes
+	for last, k := 0x1e, 0; last <= 0x82; last, k = last+1, k+1 {
+		r := long
+		if last >= 0x20 && last <= 0x7f && (k/(1+last%3))%2 == 0 {
+			r = short
+		}
+		val := cidVal(v)
+		if kind == "tu" {
+			val = textVal([]int{0x3b1 + v - 100})
+		}
+		if last%17 != 0 { // some holes
+			lay.Entries = append(lay.Entries, entry{C: code(r, last), V: val})
+		}
+		c.Probes = append(c.Probes, code(short, last&0xff), code(long, last))
+		v++
+	}
+	c.Layers = []layer{lay}
+	seen := map[string]bool{}
+	ps := c.Probes
+	c.Probes = nil
+	for _, p := range ps {
+		if !seen[key(p)] {
+			seen[key(p)] = true
+			c.Probes = append(c.Probes, p)
+		}
+	}
+	return c
+}
+
 func randomCases(ctx *core.Ctx) []*conCase {
 	rd := ctx.Rand("random-maps")
 	var out []*conCase
@@ -640,8 +716,13 @@ func randomCases(ctx *core.Ctx) []*conCase {
 	for i, p := range [][2]int{{10, 256}, {70, 256}, {99, 200}, {99, 256}, {150, 256}} {
 		out = append(out, stackCase(p[0], p[1], i))
 	}
-	for i, p := range [][2]int{{99, 1}, {100, 100}, {101, 201}, {200, 99}, {201, 0}, {0, 101}} {
-		out = append(out, chunkCase("cid", p[0], p[1], 2*i), chunkCase("tu", p[0], p[1], 2*i+1))
+	// sections of exactly 99 / 100 / 101 / 200 / 201 entries of every kind: cidchar and
+	// cidrange, bfchar and (short, incrementing) bfrange, notdefrange and notdefchar
+	for i, n := range []int{99, 100, 101, 200, 201} {
+		out = append(out, chunkCase("cid", n, n, 2*i), chunkCase("tu", n, n, 2*i+1), notdefChunkCase(n, i))
+	}
+	for i := 0; i < 6; i++ {
+		out = append(out, crossLengthCase(i))
 	}
 	n := ctx.Pick(40, 300)
 	for i := 0; i < n; i++ {
